@@ -81,6 +81,15 @@ class Model:
         go(ci)
         return out
 
+    def isa_table(self, under='mindsdb_sql/parser/ast'):
+        """{class name: names of all its ancestors} for the classes defined under a directory: the `isa` relation the interpreter uses for isinstance"""
+        out = {}
+        for lst in self.classes.values():
+            for ci in lst:
+                if ci.file.startswith(under):
+                    out[ci.name] = {c.name for c in self.mro(ci)[1:]}
+        return out
+
     def is_subclass(self, ci, base_name):
         return any(c.name == base_name for c in self.mro(ci))
 
